@@ -53,5 +53,5 @@ with open(os.path.join(S, "README.md"), "w") as f:
             "files the patch touches; run for waves 1-2 with the machinery of that time).\n\n")
     f.write("| id | property | wave | files | own check, before | own check, final | caught by | harness errors (exit 2) in related checks | note |\n|---|---|---|---|---|---|---|---|---|\n")
     for r in rows:
-        f.write("| %s | %s | %d | %s | %s | %s | %s | %s | %s |\n" % r)
+        f.write("| %s | %s | %s | %s | %s | %s | %s | %s | %s |\n" % r)
 print(len(rows), "meta files")
